@@ -46,6 +46,12 @@ def run(rep, tier):
     r3(prog, rep)
     from . import c08
     c08.y_group_origin(prog, rep, "R4")
+    # hy and poloidal_distance read the contour's cached distance: it must belong to the current
+    # points (rule instances of C15.R3)
+    from ..report import Premise
+    from . import c15
+    rep.rule("R0", "premise: the cached contour distance is invalidated by every change of the point list (C15.R3)")
+    c15.cache_rules(prog, Premise(rep, "R0", "C15"))
     rep.undecided("quadratic convergence of the chord-sum distance in finecontour_Nfine")
     return __doc__
 
